@@ -733,7 +733,9 @@ CPHD_MUTATIONS = [
          lean='mutation_sigsize_falsifies_signalAtEof',
          apply=lambda p, r: cphd_patch_header(p['buf'], {'SIGNAL_BLOCK_SIZE': lambda v: v + 1})),
     dict(name='cphd_truncated', rule='signal block ends at the end of the file (file truncated)', expect=['check_signal_at_end_of_file'],
-         lean='mutation_truncate_falsifies_signalAtEof', apply=lambda p, r: p['buf'][:-r.randint(1, 8)]),
+         lean='mutation_truncate_falsifies_signalAtEof',
+         # inside the signal block: cutting into the PVP block is another violation (probe cphd_truncated_into_pvp, NOTES_C18X section 8)
+         apply=lambda p, r: p['buf'][:-r.randint(1, min(8, int(cphdgen.parse_header(p['buf'])[2]['SIGNAL_BLOCK_SIZE'])))]),
     dict(name='cphd_trailing_bytes', rule='signal block ends at the end of the file (bytes appended)', expect=['check_signal_at_end_of_file'],
          lean='mutation_filelen_falsifies_signalAtEof', apply=lambda p, r: p['buf'] + b'\0' * r.randint(1, 64)),
     dict(name='cphd_sig_offset_into_pvp', rule='SIGNAL block comes after the PVP block', expect=['check_pad_after_pvp'],
